@@ -237,7 +237,8 @@ def oracle_c03(res):
                     still_open = ta - t0 < lo * (1 if mr == 0 else 1)
                 kinds = [k for (_, k) in fl.get(r, [])]
                 resp = responses(res).get(r, [])
-                if still_open and not kinds and not any(x[0] < ta for x in resp):
+                cancelled = any(k == "C" and int(f[0]) == r and tt <= ta for (tt, k, f) in ins)
+                if still_open and not kinds and not cancelled and not any(x[0] < ta for x in resp):
                     return f"rst-ignored: Reset for mid {mid} did not fail request {r}"
         else:
             if mr > 0 and len(copies) != 1 + mr:
